@@ -150,6 +150,10 @@ def ev(sc: Scope, e, want=None):
         d = sc.names.get(e[1])
         if d is None or d[0] not in ("sig", "port"):
             raise Invalid("orphan", f"signal {e[1]} not in module {sc.mod['name']}")
+        if (sc.mod["name"], e[1]) in [tuple(x) for x in sc.design.get("redeclare", ())]:
+            # the signal was replaced, after this connection was made, by a new object of the same name: the connection
+            # still refers to the old object, which no module owns any more
+            raise Invalid("orphan", f"signal {e[1]} of {sc.mod['name']} was replaced after it was connected")
         return [node(sc.path, e[1], i) for i in range(d[2])]
     if k == "idx":
         v = ev(sc, e[1])
